@@ -59,7 +59,7 @@ func caseFromSx(v sx.V) (Case, error) {
 func generate(prop, tier string, rng *Rng) []Case {
 	switch prop {
 	case "C01":
-		return genC01(tier, rng)
+		return append(genC01(tier, rng), genC01Seq(tier, rng)...)
 	case "C02":
 		return genC02(tier, rng)
 	case "C03":
@@ -83,7 +83,7 @@ func generate(prop, tier string, rng *Rng) []Case {
 	case "C10":
 		return append(genCCUnit(tier, rng), genC10Hist(tier, rng)...)
 	case "C11":
-		return append(genKeyUnit(tier, rng), genKeyPairs(tier, rng)...)
+		return append(append(genKeyUnit(tier, rng), genKeyPairs(tier, rng)...), genC11Hist(tier, rng)...)
 	case "C09":
 		return append(genEtagUnit(), genC09Hist(tier, rng)...)
 	}
